@@ -9,6 +9,7 @@ The header generator is arbitrary: whatever `createHeader` returned is the block
 import ReuseVerif.Lemmas.Splice
 import ReuseVerif.Lemmas.FirstLine
 import ReuseVerif.Lemmas.C08FirstLineOld
+import ReuseVerif.Lemmas.C08SpliceGeneral
 namespace C08
 open Py Model Spec C08L C10L
 
@@ -91,6 +92,32 @@ theorem C08_splice_replace {c : HdrCfg} {info : Extracted} {t out : Text}
       refine ⟨h1, ?_⟩
       exact (List.append_eq_nil_iff.mp (ha.trans h2)).2
 
+/-- **Table obligation.**  The pseudo styles declare no first-line markers. -/
+theorem C08_pseudo_table : ∀ s ∈ Generated.styles, s.isEmptyStyle = true → s.shebangs = [] := by
+  decide +kernel
+
+/-- **Replacing mode, no hypothesis on the text** (`NoExoticBreaks` lifted).  For every style of the table but the
+    `.license` pseudo style, every request and *every* text: a successful `find_and_replace_header` cuts the text
+    as `pre ++ old ++ post = t` — `pre` is what stands above the block found, `post` what `_find_first_spdx_comment`
+    leaves below it, `old` the region between — and
+    * either the output is `SpliceAt hdr pre post` (above: `pre` without white space at its ends and one empty line;
+      below: `post` byte for byte, possibly after one empty line) — in particular every character outside `old` is
+      kept, whatever line boundaries the text uses;
+    * or `pre` is white space only and the shebang loop took marker lines *out of the block found*: what stands
+      above the header is then `sbl`, the first `j` lines of the text from the block on as `str.splitlines()`
+      reads them (`splitLines sbl = (splitLines (old ++ post)).take j`), each written with a `\n` line end, and the
+      output is `SpliceAt hdr sbl post` — a form feed or a lone `\r` between two marker lines is rewritten to `\n`,
+      no line is lost or reordered.
+    Under `NoExoticBreaks`, `C08_splice_replace` says more in the second case (`sbl` is a substring of the text). -/
+theorem C08_splice_replace_general {c : HdrCfg} {info : Extracted} {t out : Text} (hs : c.style ∈ Generated.styles)
+    (hstyle : (c.style.name == "EmptyCommentStyle") = false)
+    (h : findAndReplaceHeader c info t = .ok out) :
+    ∃ hdr oldHdr pre old post, createHeader c info oldHdr = .ok hdr ∧ pre ++ old ++ post = t ∧
+      (SpliceAt hdr pre post out ∨
+       (Blank pre ∧ ∃ j sbl, sbl = (((splitLines (old ++ post)).take j).map (· ++ ['\n'])).flatten ∧
+          splitLines sbl = (splitLines (old ++ post)).take j ∧ SpliceAt hdr sbl post out)) :=
+  splice_replace_general hstyle (C08_pseudo_table _ hs) h
+
 /-- **The `.license` pseudo style** (no shebang list): everything from the first position on whose rest
     holds REUSE information — the whole file when there is none — is the block; what stands above is kept
     as in the other styles, nothing stands below. -/
@@ -168,6 +195,21 @@ theorem C08_head {hdr pre post out : Text} (hs : SpliceAt hdr pre post out) (hnb
   cases hA with
   | none hb => exact absurd hb hnb
   | kept w₁ core w₂ hp h1 h2 hne _ => exact ⟨w₁, core, w₂, hp, h1, h2, hne, b, by rw [ho]⟩
+
+/-- … so text below the block that is not white space only is a suffix of the output, for every text -/
+theorem C08_tail_general {c : HdrCfg} {info : Extracted} {t out : Text} (hs : c.style ∈ Generated.styles)
+    (hstyle : (c.style.name == "EmptyCommentStyle") = false)
+    (h : findAndReplaceHeader c info t = .ok out) :
+    ∃ pre old post, pre ++ old ++ post = t ∧ (¬ Blank post → post <:+ out ∧ out.getLast? = t.getLast?) := by
+  obtain ⟨hdr, _, pre, old, post, _, hcut, hsp⟩ := C08_splice_replace_general hs hstyle h
+  refine ⟨pre, old, post, hcut, fun hnb => ?_⟩
+  rcases hsp with hsp | ⟨_, _, sbl, _, _, hsp⟩
+  · have := C08_tail (old := old) hsp hnb
+    rw [hcut] at this; exact this
+  · have := C08_tail (old := old) hsp hnb
+    refine ⟨this.1, ?_⟩
+    have hne : post ≠ [] := fun h0 => hnb (by rw [h0]; decide)
+    rw [this.2, ← hcut, getLast?_append_ne _ hne, getLast?_append_ne _ hne]
 
 /-- **Line endings, CRLF.**  Annotating the CRLF form of an LF text gives the CRLF form of what annotating
     the LF text gives: every line break written is CRLF and nothing else differs. -/
@@ -332,6 +374,12 @@ example : moveShebang ["#!".toList] [] "#!/bin/sh\n# SPDX-License-Identifier: MI
 example : moveShebang ["#!".toList] "#!/bin/sh\n\n".toList "# SPDX-License-Identifier: MIT\n".toList "x\n".toList =
     ("#!/bin/sh\n\n".toList, "# SPDX-License-Identifier: MIT\n".toList, "x\n".toList) := by decide +kernel
 example : placeHeader "# h".toList "#!/bin/sh\n".toList "x\n".toList true = "#!/bin/sh\n\n# h\nx\n".toList := by decide +kernel
+/-- the second alternative of `C08_splice_replace_general`: a form feed between the shebang and the header — the
+    block is read as two lines, the marker line moved out of it is written with `\n` -/
+example : splitLines "#!/bin/sh\x0c# SPDX-License-Identifier: MIT\nx\n".toList =
+    ["#!/bin/sh".toList, "# SPDX-License-Identifier: MIT".toList, "x".toList] := by decide +kernel
+example : (extractShebang "#!".toList "#!/bin/sh\n# SPDX-License-Identifier: MIT\n".toList).1 = "#!/bin/sh\n".toList := by
+  decide +kernel
 /-- the relation excludes something: text below the header cannot lose a character -/
 example : ¬ Below "x = 1\n".toList "x = 1".toList := by
   intro h; cases h
